@@ -57,3 +57,11 @@ Definition fd_float64_scale2 : fdesc := mkfdesc 0 0 bt_float64 2 0 MesgNumInvali
 Theorem C10_idempotent_refuted : exists d, restore_dev (restore_dev d fd_float64_scale2) fd_float64_scale2 <> restore_dev d fd_float64_scale2.
 Proof. exists (mkdev 0 0 (VNum TF64 4609434218613702656)). vm_compute. discriminate. Qed.
 Print Assumptions C10_idempotent_refuted.
+
+(* developer fields: whenever validation accepts a message's developer fields, every one of them belongs to a developer data index
+   declared earlier in the sequence and has a field description; what is retained is exactly the restored fields whose value is
+   valid under the description's base type (all of them when preserving invalid values), in their original order; at most 255 *)
+Theorem C10_frame_devs : forall preserve vs ds out, validate_devs preserve vs ds [] = Ok out ->
+  out = retained_devs preserve vs ds /\ Forall (dev_declared vs) ds /\ (length out <= 255)%nat.
+Proof. exact validate_devs_frame. Qed.
+Print Assumptions C10_frame_devs.
